@@ -53,7 +53,7 @@ var c19Flags = []c19Flag{
 }
 
 const (
-	c19Prefix = "-PV0001-"
+	c19Prefix = "-PV0001-LONGER" // longer than the public prefix: a length taken from the wrong prefix truncates it
 	c19ExtV   = "PrivClient 1.0"
 	c19UA     = "PrivUA/1.0"
 )
@@ -161,7 +161,40 @@ func mkC19() *Scenario {
 		return nil
 	}
 	sc.Check = func(w *World) { c19Check(w, arg, g, P1, P2, ts, pexAddr, dhtAddr, false) }
-	sc.Final = func(w *World) { c19Check(w, arg, g, P1, P2, ts, pexAddr, dhtAddr, true) }
+	sc.Final = func(w *World) {
+		c19Check(w, arg, g, P1, P2, ts, pexAddr, dhtAddr, true)
+		if len(w.Fails) > 0 || w.Dead != "" {
+			return
+		}
+		// a handle that outlives RemoveTorrent still must not export a private torrent's magnet link
+		priv := w.Tor.VerifStats().Private
+		h := w.Tor
+		w.S.VerifFakeDHT(false) // no live DHT node exists in the lab: RemoveTorrent must not talk to one
+		w.Launch("Remove", func() any { return w.S.RemoveTorrent(h.ID(), true) })
+		for k := 0; k < 40 && w.Dead == ""; k++ {
+			w.Quiesce()
+			acts := StdActions(w)
+			if len(acts) == 0 {
+				break
+			}
+			acts[0].Do(w)
+		}
+		w.Dead = "" // the loop has exited: expected here
+		done := make(chan struct{})
+		var link string
+		var err error
+		go func() { link, err = h.Magnet(); close(done) }()
+		w.Quiesce()
+		select {
+		case <-done:
+			if priv && err == nil {
+				w.Failf("C19.magnet-exported-after-remove", "private torrent (%s): Magnet() on the handle of the removed torrent returned %q", c19Flags[arg.Flag].Name, link)
+			}
+			w.Count("magnet_after_remove_checked", 1)
+		default:
+			w.Failf("C19.magnet-call-stuck", "Magnet() on the handle of a removed torrent did not return")
+		}
+	}
 	sc.Outcome = func(w *World) string {
 		st := w.Tor.VerifStats()
 		return fmt.Sprintf("%s/private=%v/%s", c19Flags[arg.Flag].Name, st.Private, st.Status)
@@ -227,7 +260,26 @@ func c19Check(w *World, arg c19Arg, g *GenTorrent, P1, P2 *Peer, ts *HTTPTracker
 			}
 		}
 	}
-	mag, magErr := w.Tor.Magnet()
+	var mag string
+	var magErr error
+	{
+		type mres struct {
+			s   string
+			err error
+		}
+		c := w.Launch("Magnet", func() any { s, err := w.Tor.Magnet(); return mres{s, err} })
+		w.Quiesce() // the call is a plain read today; if it ever goes through the loop, the loop serves it below
+		if !c.IsDone(w) {
+			w.drain(12)
+		}
+		if !c.IsDone(w) {
+			w.Failf("C19.magnet-call-stuck", "Magnet() did not return")
+			return
+		}
+		r := c.Result.(mres)
+		mag, magErr = r.s, r.err
+		w.Cmds = w.Cmds[:len(w.Cmds)-1]
+	}
 	if priv {
 		w.Count("private_runs_checked", 1)
 		if pexFrames > 0 {
